@@ -101,7 +101,7 @@ NEWQ = 'self.sockets[' + NEW_SID + '].queue'
 c.ensures('rejected-id-never-addressable', "implies(transport == 'polling' and "
           "result['status'] == '401 UNAUTHORIZED', " + NEW_SID + " not in self.sockets)",
           props=['C11', 'C16'])
-c.ensures('status-is-200-401-or-400', "implies(transport == 'polling', result['status'] in "
+c.ensures('status-is-200-401-or-400', "implies(isinstance(result, dict), result['status'] in "
           "('200 OK', '401 UNAUTHORIZED', '400 BAD REQUEST'))", props=['C11', 'C15'])
 c.ensures('accepted-session-created', "implies(transport == 'polling' and "
           "result['status'] == '200 OK', " + NEW_SID + " in self.sockets and "
@@ -121,7 +121,7 @@ c.ensures('cookie-exactly-when-configured',
           "result['headers'] == ([('Set-Cookie', cookie_value(" + NEW_SID + ", "
           "{'name': self.cookie, 'path': '/', 'SameSite': 'Lax'}))] if self.cookie else []) + "
           "[('Content-Type', 'text/plain; charset=UTF-8')])", props=['C11'])
-c.ensures('polling-open-sends-no-response-itself', "implies(transport == 'polling', "
+c.ensures('no-response-sent-by-an-http-answer', "implies(isinstance(result, dict), "
           "sr_log == old(sr_log))", props=['C15'])
 c.ensures('polling-accept-or-reject-adds-no-other-event', "implies(transport == 'polling', "
           "len(events) == len(old(events)) + 1)", props=['C05'])
@@ -213,7 +213,7 @@ NOTHING_BUT_REAPING = NOTHING.replace(
     "(self.sockets == old(self.sockets) or (q_sid(environ) is not None and "
     "self.sockets == dict_del(old(self.sockets), q_sid(environ)))) and")
 c = REG.contract('server.Server.handle_request', props=['C12', 'C13', 'C15', 'C19', 'C03', 'C04'])
-c.shards = 12
+c.shards = 1        # cut points make the exploration linear; path sharding is not needed
 c.param('self', Ref('Server')).param('environ', ENV).param('start_response', SR)
 c.returns_cases(('http-response', 'True', List(BYTES)),
                 ('websocket-session', 'is_websocket_request(self, environ)', QI))
@@ -264,7 +264,7 @@ c.cut('if jsonp and jsonp_index is None:', [
      "implies(jsonp_index is not None, jsonp and not jsonp_bad(environ))"),
 ])
 c.cut('if not isinstance(r, dict):', [
-    ('no-response-yet', 'len(sr_log) == 0'),
+    ('no-response-yet', 'implies(isinstance(r, dict), len(sr_log) == 0)'),
     ('refused-400', 'implies(' + NOT_GATED + " and old(refusal(self, environ)) == 400, "
      "r['status'] == '400 BAD REQUEST' and " + NOTHING_BUT_REAPING + ')'),
     ('refused-405', 'implies(' + NOT_GATED + " and old(refusal(self, environ)) == 405, "
